@@ -627,7 +627,7 @@ def qorder_profile(env):
 
 def smtstr_profile(env):
     """strings whose SMT-LIB spelling needs escaping (outside the HR fragment)"""
-    return P.str_profile(env, strs=("", 'a"b', '""', "a b", "|", "\\x", ";"), ints=(0, -1))
+    return P.str_profile(env, strs=("", 'a"b', '""', "a b", "|", "\\x", ";", "a\\\\b", "\\"), ints=(0, -1))
 
 
 def _names(*ns):
